@@ -55,4 +55,11 @@ def cells(tier):
     out.append(icell(PID, 'roDelete', N=2, T=T, free_roid=True))
     for tw in ('same', 'blank', 'free'):
         out.append(icell(PID, 'roDelete', N=2, T=T, twice=tw))
+    # (e) collections: prefix, roDelete, suffix in strict and non-strict mode; mc.completed follows the running order
+    from .p_c09 import mk as cmk
+    for tr in (('roStoryMove', 'roDelete', 'roStoryAppend'), ('roDelete', 'roStoryInsert', 'roItemInsert'),
+               ('roStorySend', 'roMetadataReplace', 'roDelete')):
+        for strict in (True, False):
+            out.append(cmk(PID, tr, strict, 'string', T=T, mids=['20', '30', '100']))
+    out.append(cmk(PID, ('roStoryReplace', 'roDelete'), False, 'file', T=T, mids=['7', '30'], perm=[2, 1, 0]))
     return out
